@@ -88,9 +88,9 @@ def run(ctx):
             if s.kind == 'assign' and s.rv.kind == 'bin' and s.rv.binop.startswith('Sub'):
                 subs.append((blk, s))
                 diffs.append((blk.idx, s.rv.ops[0], s.rv.ops[1], 'sub'))
-        if blk.term.kind == 'call' and SAT in blk.term.callee_names() and len(blk.term.args) == 2:
+        if blk.term.kind == 'call' and blk.term.callee_names() & {SAT, 'core::num::abs_diff'} and len(blk.term.args) == 2:
             diffs.append((blk.idx, blk.term.args[0], blk.term.args[1], 'saturating'))
-    ctx.floor('R11.1', 'differences in status()', len(diffs), 2)
+    ctx.floor('R11.1', 'differences in status()', len(diffs), 1)
     for blk, s in subs:
         a, b_ = s.rv.ops
         conds = governing_conditions(an, blk.idx)
@@ -115,7 +115,7 @@ def run(ctx):
         ctx.ob('R11.4', 'Status.size is the size counter', fsrc('size') == {'%s.%s' % (r.SLOTS, r.SIZE)}, ctx.where(st, s.line), str(fsrc('size')), construct='status:size')
         ctx.ob('R11.4', 'Status.max_size is the configured limit', fsrc('max_size') == {'%s.%s' % (r.SLOTS, r.MAX)}, ctx.where(st, s.line), str(fsrc('max_size')), construct='status:max')
         for nm in ('available', 'waiting'):
-            srcs = sources(an, f[nm], extra_through=(SAT,))
+            srcs = sources(an, f[nm], extra_through=(SAT, 'core::num::abs_diff'))
             fields = {x[1] for x in srcs if x[0] == 'field'}
             loads_ = {x[1] for x in srcs if x[0] == 'call'}
             consts = {x[1] for x in srcs if x[0] == 'const'}
@@ -123,17 +123,70 @@ def run(ctx):
                 any(l.endswith('::load') for l in loads_) and consts <= {'0_usize'} | {c for c in consts if 'Ordering' in c or 'Relaxed' in c}
             ctx.ob('R11.4', 'Status.%s is derived from size and users only' % nm, ok, ctx.where(st, s.line), 'fields %s calls %s consts %s' % (sorted(fields), sorted(loads_), sorted(consts)),
                    construct='status:' + nm)
-        # which difference feeds which field: available = size - users, waiting = users - size
-        def is_size(o):
-            return any(x[0] == 'field' and x[1] == '%s.%s' % (r.SLOTS, r.SIZE) for x in sources(an, o)) and not is_users(o)
-        def is_users(o):
-            return any(x[0] == 'call' and x[1].endswith('::load') for x in sources(an, o))
-        for nm, first in (('available', r.SIZE), ('waiting', 'load')):
-            srcs = sources(an, f[nm])
-            feeding = {x[2] for x in srcs if (x[0] == 'bin' and x[1].startswith('Sub')) or (x[0] == 'call' and x[1] == SAT)}
-            mine = [d for d in diffs if d[0] in feeding]
-            okd = bool(mine) and all((is_size(l_) and is_users(r_)) if first != 'load' else (is_users(l_) and is_size(r_)) for _, l_, r_, _ in mine)
-            ctx.ob('R11.4', 'Status.%s is the right difference' % nm, okd, ctx.where(st, s.line), '', construct='status:diff:' + nm)
+        # which quantity, with which sign, reaches available / waiting: sign-domain evaluation of status() for users < size,
+        # users == size, users > size (dprules/signeval.py) - whatever the arithmetic is written with (if/else and `-`,
+        # saturating_sub, abs_diff, min / max ..)
+        from . import signeval
+        def classify_field(p):
+            lf = p.last_field()
+            if lf == (r.SLOTS, r.SIZE):
+                return ('in', 'size')
+            if lf == (r.SLOTS, r.MAX):
+                return ('in', 'max_size')
+            return None
+        sign_now = [0]
+        def classify_call(t, env):
+            names = t.callee_names()
+            if any(n.endswith('::load') and 'atomic' in n for n in names):
+                return ('in', 'users')
+            vals = []
+            for a_ in t.args:
+                if a_.kind == 'const':
+                    try:
+                        vals.append(('c', int(str(a_.const.get('v', '')).split('_')[0])))
+                    except ValueError:
+                        vals.append(None)
+                elif not a_.place.proj:
+                    vals.append(env.get(a_.place.local))
+                else:
+                    vals.append(classify_field(a_.place))
+            meth = sorted(names)[0].split('::')[-1] if names else ''
+            def diff(x, y):
+                if x == ('in', 'size') and y == ('in', 'users'):
+                    return 1
+                if x == ('in', 'users') and y == ('in', 'size'):
+                    return -1
+                return None
+            if meth in ('saturating_sub', 'abs_diff', 'wrapping_sub', 'checked_sub') and len(vals) == 2 and diff(vals[0], vals[1]) is not None:
+                k = diff(vals[0], vals[1])
+                if meth == 'abs_diff':
+                    return ('a', k) if sign_now[0] * k > 0 else (('a', -k) if sign_now[0] * k < 0 else ('c', 0))
+                if meth == 'saturating_sub':
+                    return ('a', k) if sign_now[0] * k > 0 else ('c', 0)
+                return ('a', k)
+            if meth in ('deref', 'deref_mut', 'lock', 'unwrap') or 'Ordering' in ''.join(names):
+                return ('k', 'plumbing')
+            return None
+        want = {1: {'available': ('a', 1), 'waiting': ('c', 0)}, -1: {'available': ('c', 0), 'waiting': ('a', -1)}, 0: {'available': ('c', 0), 'waiting': ('c', 0)}}
+        for sg in (1, -1, 0):
+            sign_now[0] = sg
+            label = {1: 'users < size', -1: 'users > size', 0: 'users == size'}[sg]
+            ev_ = []
+            try:
+                out = signeval.run(st, an, sg, classify_call, classify_field, pair=('size', 'users'), events=ev_)
+            except signeval.Unknown as e:
+                ctx.undecide('R11.4', 'status(): cannot evaluate the case %s: %s' % (label, e)); continue
+            if any(out.get(k) is None for k in ('available', 'waiting')):
+                ctx.undecide('R11.4', 'status(): available / waiting computed in a way that is not understood (case %s)' % label); continue
+            def same(v, w):
+                if sg == 0 and v is not None and v[0] == 'a':
+                    v = ('c', 0)
+                return v == w
+            okd = same(out.get('available'), want[sg]['available']) and same(out.get('waiting'), want[sg]['waiting'])
+            ctx.ob('R11.4', 'status() with %s: available = size - users or 0, waiting = users - size or 0' % label, okd, ctx.where(st, s.line),
+                   'got available %s, waiting %s (a = size - users)' % (out.get('available'), out.get('waiting')) if not okd else '', construct='status:diff:%d' % sg)
+            ctx.ob('R11.1', 'no subtraction in status() can wrap (%s)' % label, not ev_, ctx.where(st, ev_[0][1]) if ev_ else ctx.where(st),
+                   'a plain `-` is evaluated with a negative result in this case' if ev_ else '', construct='status:sub-guard:%d' % sg)
 
     # ---- R11.2 counter discipline -----------------------------------------------------------------
     _ug = r.users_guard()
@@ -173,10 +226,9 @@ def run(ctx):
             ev = 'len' in v and 'length of the vector of removed objects'
         else:
             # Some arm of a pop / Option::take on the wrapper
-            sws = [x for x in b.blocks if x.term.kind == 'switch' and x.term.j.get('adt') == 'std::option::Option']
+            sws = [x for x in b.blocks if maybe_arms(r.crate, x.term) is not None]
             for x in sws:
-                some = dict(x.term.switch_arms()).get('Some')
-                none = dict(x.term.switch_arms()).get('None')
+                some, none = maybe_arms(r.crate, x.term)
                 if some is not None and bb in ban.reach([some], ('normal',), avoid=[none] if none is not None else []) and \
                         (none is None or bb not in ban.reach([none], ('normal',), avoid=[some])):
                     ev = 'Some arm of a pop / take'
